@@ -20,7 +20,13 @@ func genC04(c *ctx) {
 	if c.thorough() {
 		stride = 3
 	}
-	chk := func() *h.Check { return &h.Check{Key: c.key(), Stride: stride, Limit: []uint{0, 0, 2, 7}[c.n(4)]} }
+	max := 50
+	if c.thorough() {
+		max = 400
+	}
+	chk := func() *h.Check {
+		return &h.Check{Key: c.key(), Stride: stride, Max: max, Limit: []uint{0, 0, 2, 7}[c.n(4)]}
+	}
 	c.add(&h.Event{K: "quiesce"})
 	c.add(&h.Event{K: "check", Check: chk()})
 	c.eachFile(func(pi, fi int) {
